@@ -229,7 +229,7 @@ Definition spec_ok (c : case) : bool :=
   match c with
   | CSlots p l => slots_ok p l
   | CRun p m pre h o => run_ok p pre h o
-  | CQueue m first n q => (0 <=? q) && (q <=? n) && ((first + q) mod n =? m mod n)
+  | CQueue m first n q => (0 <=? q) && (q <? n) && ((first + q) mod n =? m mod n)
   end.
 
 Definition agree (c : case) : bool :=
